@@ -82,10 +82,20 @@ Proof. vm_compute. split; reflexivity. Qed.
 (* one statement with two names on its left-hand side contributes its equation twice *)
 Example two_lhs_names_two_equations : n_statements "Y,Z = 1,2" = 1 /\ accepted_emits "Y,Z = 1,2" = Some 2.
 Proof. vm_compute. split; reflexivity. Qed.
-(* #19: a left-hand name that is also called as a function loses its equation: the statement contributes nothing *)
-Example lhs_name_called_drops_equation :
-  n_statements "Y = Y(1)" = 1 /\ parse_model_nocheck "Y = Y(1)" = POk [mkSymbol (Some "Y") TFunction None None None None].
-Proof. vm_compute. split; reflexivity. Qed.
+(* #19 REPAIRED (b45daa1): a name used both as a function and as a variable / parameter / error in one equation is a
+   SymbolError in either order (the function symbol used to replace the other one silently); repeated calls of one
+   function still collapse to one FUNCTION symbol; across statements the clash was always a SymbolError *)
+Example function_name_clash_rejected :
+  parse_model_nocheck "Y = Y(1)" = PErr SymbolError /\ parse_model_nocheck "Y = exp + exp(X)" = PErr SymbolError /\
+  parse_model_nocheck "Y = exp(X) + exp" = PErr SymbolError /\ parse_model_nocheck "Y = {a} + a(X)" = PErr SymbolError /\
+  parse_model_nocheck "Y = a(X) + <a>" = PErr SymbolError /\
+  parse_model_nocheck (lines ["Y = a + 1"; "Z = a(1)"]) = PErr SymbolError.
+Proof. vm_compute. repeat split; reflexivity. Qed.
+Example repeated_calls_collapse :
+  parse_model_nocheck "Y = f(X) + f(Z)" =
+  POk [sym "Y" TEndogenous 0 0 (Some "Y[t] = f(X[t]) + f(Z[t])") (Some "self._Y[t] = f(self._X[t]) + f(self._Z[t])");
+       mkSymbol (Some "f") TFunction None None None None; sym "X" TExogenous 0 0 None None; sym "Z" TExogenous 0 0 None None].
+Proof. vm_compute. reflexivity. Qed.
 
 (* ---- the oracle ---- *)
 Definition chk_rejects (bad : string) (r : chk_res) (c : string) : chk_res := if String.eqb c bad then r else ChkOk.
